@@ -82,6 +82,7 @@ func (p c12Profile) cluster() bool  { return p.typ == ClusterType }
 
 type c12Twins struct {
 	prof   c12Profile
+	how    int // the constructor that created (and warmed) the shared client of address A
 	mA, mB *miniredis.Miniredis
 	admA   *red.Client // raw client to A: used for housekeeping only (SCRIPT FLUSH)
 	// rawB: the reference client, raw go-redis with the same credentials: a *red.Client
@@ -120,14 +121,12 @@ func (tw *c12Twins) newRedis(how int) *Redis {
 
 var (
 	c12Mu  sync.Mutex
-	c12Tw  = make([]*c12Twins, len(c12Profiles))
+	c12Tw  = make([]*c12Twins, 3*len(c12Profiles)) // per profile and constructor
 	c12Log sync.Once
 	c12T0  = time.Date(2030, 1, 1, 0, 0, 0, 0, time.UTC)
 )
 
 type c12CtxKey struct{}
-var c12Prof [8]time.Duration
-var c12ProfN [8]int
 
 // c12Stall: both clients re-send a command after a read timeout (3 s, go-redis
 // default; the wrapper configures MaxRetries 3), which executes non-idempotent commands
@@ -140,18 +139,23 @@ const c12Stall = 2 * time.Second
 var c12StepStall = c12Stall
 
 // c12Setup returns the twins of the plain profile (node, no password).
-func c12Setup(t *testing.T) *c12Twins { return c12Get(t, 0) }
+func c12Setup(t *testing.T) *c12Twins { return c12Get(t, 0, 0) }
 
-// c12Get returns the twins of a profile, creating its servers at first use.
-func c12Get(t *testing.T, p int) *c12Twins {
+// c12Get returns the twins of a profile and constructor, creating the servers at
+// first use. The wrapper's client / cluster managers cache ONE client per address,
+// built from the first *Redis that uses the address; a constructor that loses part of
+// the configuration only shows when it is that first user. Hence one server pair per
+// (profile, constructor), warmed through that constructor.
+func c12Get(t *testing.T, p, how int) *c12Twins {
 	c12Log.Do(logx.Disable)
 	c12Mu.Lock()
 	defer c12Mu.Unlock()
-	if c12Tw[p] == nil {
-		c12Tw[p] = &c12Twins{prof: c12Profiles[p]}
-		c12Renew(t, c12Tw[p])
+	i := 3*p + how%3
+	if c12Tw[i] == nil {
+		c12Tw[i] = &c12Twins{prof: c12Profiles[p], how: how % 3}
+		c12Renew(t, c12Tw[i])
 	}
-	return c12Tw[p]
+	return c12Tw[i]
 }
 
 // c12Renew puts fresh servers (new addresses) and fresh clients behind the twins.
@@ -185,18 +189,27 @@ func c12Renew(t *testing.T, tw *c12Twins) {
 	} else {
 		tw.rawB = red.NewClient(&red.Options{Addr: tw.mB.Addr(), Password: p.cfgPass})
 	}
-	tw.blockA, err = CreateBlockingNode(tw.newRedis(0))
+	tw.blockA, err = CreateBlockingNode(tw.newRedis(tw.how))
 	if err != nil {
 		t.Fatalf("blocking node: %v", err)
 	}
 	// warm the shared wrapper client (client / cluster manager) of the new address
-	for i := 0; !tw.newRedis(0).Ping() && !p.mustFail(); i++ {
-		if i > 50 {
-			t.Fatalf("wrapper cannot reach miniredis A (%s)", p.name) // inconclusive run, not a verdict
+	// through the constructor of these twins. If the wrapper cannot reach its server
+	// although raw go-redis with the right password can, that is the wrapper's doing: the
+	// histories will report it; if raw go-redis cannot either, the run is inconclusive.
+	for i := 0; !tw.newRedis(tw.how).Ping() && !p.mustFail(); i++ {
+		if i > 20 {
+			probe := red.NewClient(&red.Options{Addr: tw.mA.Addr(), Password: p.pass})
+			perr := probe.Ping(context.Background()).Err()
+			probe.Close()
+			if perr != nil {
+				t.Fatalf("miniredis A (%s) unreachable: %v", p.name, perr)
+			}
+			break
 		}
-		time.Sleep(100 * time.Millisecond)
+		time.Sleep(50 * time.Millisecond)
 	}
-	if p.name != "node" {
+	if p.name != "node" || tw.how != 0 {
 		return
 	}
 	// the closed server of the breaker rule gets its client now, so that the decoy's
@@ -407,9 +420,7 @@ func c12Interp(t *testing.T, c c12Case) (v kit.Verdict) {
 		v.Excluded = true
 		return v
 	}
-	tw := c12Get(t, c.P)
-	tstart := time.Now()
-	defer func() { c12Prof[c.P] += time.Since(tstart); c12ProfN[c.P]++; if c12ProfN[0]%100 == 0 { fmt.Println("PROFTIME", c12Prof, c12ProfN) } }()
+	tw := c12Get(t, c.P, c.How)
 	e := &c12Env{tw: tw, how: c.How, classes: map[string]bool{}, types: map[string]bool{}}
 	e.classes["conf:"+tw.prof.name] = true
 	e.classes[fmt.Sprintf("constructor:%d", c.How%3)] = true
@@ -801,9 +812,10 @@ func c12Gen(rt *rapid.T) c12Case {
 
 func c12GenWith(g *c12G) c12Case {
 	var c c12Case
-	// client configuration: 8/20 plain node, 3/20 each node+pass, cluster, cluster+pass,
-	// 1/20 each must-fail configuration; constructor drawn uniformly
-	c.P = []int{0, 0, 0, 0, 0, 0, 0, 0, 1, 1, 1, 2, 2, 2, 3, 3, 3, 4, 5, 6}[g.uni(20)]
+	// client configuration: 11/20 plain node, 4/20 node+pass, 1/20 each cluster and
+	// cluster+pass (a wrapper call through go-redis' ClusterClient costs about 10 times a
+	// node call), 1/20 each must-fail configuration; constructor drawn uniformly
+	c.P = []int{0, 0, 0, 0, 0, 0, 0, 0, 0, 0, 0, 1, 1, 1, 1, 2, 3, 4, 5, 6}[g.uni(20)]
 	c.How = g.uni(3)
 	n := 10 + g.uni(51)
 	for i := 0; i < n; i++ {
